@@ -198,6 +198,7 @@ class Outcome:
     events: list = field(default_factory=list)  # other statements executed (resolved copies are not made)
     env: dict = field(default_factory=dict)
     node: ast.AST | None = None
+    seq: list = field(default_factory=list)  # ordered trace: ('cond', test, pol) | ('assign'|'stmt', stmt, resolved value)
 
     def cond_texts(self):
         return [(ctext(t), p) for t, p in self.conds]
@@ -214,15 +215,15 @@ def outcomes(stmts, scope: Scope | None = None, env: dict | None = None, atom=No
         r = resolved(e, env)
         return inline(r, scope) if scope is not None else r
 
-    def walk(stmts, env, conds, events, cont):
+    def walk(stmts, env, conds, events, cont, seq=()):
         if len(done) > limit:
             raise AnalysisError("sem", "too many paths")
         if not stmts:
-            cont(env, conds, events)
+            cont(env, conds, events, seq)
             return
         s, rest = stmts[0], stmts[1:]
         if isinstance(s, ast.Expr) and isinstance(s.value, ast.Constant):
-            return walk(rest, env, conds, events, cont)
+            return walk(rest, env, conds, events, cont, seq)
         if isinstance(s, ast.If):
             test = res(s.test, env)
             v = eval_bool(test, atom) if atom is not None else None
@@ -233,49 +234,50 @@ def outcomes(stmts, scope: Scope | None = None, env: dict | None = None, atom=No
                     env2[n.target.id] = res(n.value, env)
             for val in ([v] if v is not None else [True, False]):
                 walk(s.body if val else s.orelse, dict(env2), conds + [(test, val)], list(events),
-                     lambda e, c, ev: walk(rest, e, c, ev, cont))
+                     lambda e, c, ev, sq: walk(rest, e, c, ev, cont, sq), seq + (("cond", test, val),))
             return
         if isinstance(s, ast.Return):
             val = res(s.value, env) if s.value is not None else None
-            _finish_return(val, env, conds, events, s)
+            _finish_return(val, env, conds, events, s, seq)
             return
         if isinstance(s, ast.Raise):
-            done.append(Outcome(conds, "raise", res(s.exc, env) if s.exc is not None else None, events, env, s))
+            done.append(Outcome(conds, "raise", res(s.exc, env) if s.exc is not None else None, events, env, s, list(seq)))
             return
         if isinstance(s, (ast.Continue, ast.Break)):
-            done.append(Outcome(conds, "continue" if isinstance(s, ast.Continue) else "break", None, events, env, s))
+            done.append(Outcome(conds, "continue" if isinstance(s, ast.Continue) else "break", None, events, env, s, list(seq)))
             return
         if isinstance(s, ast.With):
-            return walk(list(s.body) + list(rest), env, conds, events + [s.items[0].context_expr], cont)
+            return walk(list(s.body) + list(rest), env, conds, events + [s.items[0].context_expr], cont,
+                        seq + (("stmt", s, None),))
         if isinstance(s, (ast.Assign, ast.AnnAssign)):
             from .resolve import run_block
             env2 = run_block([s], env)
             # item / attribute stores are events
             tg = s.targets if isinstance(s, ast.Assign) else [s.target]
             ev2 = events + ([s] if any(not isinstance(t, (ast.Name, ast.Tuple)) for t in tg) else [])
-            if any(not isinstance(t, (ast.Name, ast.Tuple)) for t in tg):
-                pass
-            return walk(rest, env2, conds, ev2, cont)
+            rv = res(s.value, env) if s.value is not None else None
+            return walk(rest, env2, conds, ev2, cont, seq + (("assign", s, rv),))
         if isinstance(s, ast.AugAssign):
             env2 = dict(env)
             if isinstance(s.target, ast.Name):
                 env2.pop(s.target.id, None)
-            return walk(rest, env2, conds, events + [s], cont)
+            return walk(rest, env2, conds, events + [s], cont, seq + (("stmt", s, res(s.value, env)),))
         if isinstance(s, (ast.For, ast.While, ast.Try, ast.Match)):
             env2 = dict(env)
             for nm in _assigned_names(s):
                 env2.pop(nm, None)
-            return walk(rest, env2, conds, events + [s], cont)
+            return walk(rest, env2, conds, events + [s], cont, seq + (("stmt", s, None),))
         if isinstance(s, (ast.FunctionDef, ast.ClassDef)):
             env2 = dict(env)
             env2.pop(s.name, None)
-            return walk(rest, env2, conds, events + [s], cont)
-        return walk(rest, env, conds, events + [s], cont)
+            return walk(rest, env2, conds, events + [s], cont, seq + (("stmt", s, None),))
+        rv = res(s.value, env) if isinstance(s, ast.Expr) else None
+        return walk(rest, env, conds, events + [s], cont, seq + (("stmt", s, rv),))
 
-    def _finish_return(val, env, conds, events, node):
+    def _finish_return(val, env, conds, events, node, seq=()):
         if isinstance(val, ast.IfExp):
-            _finish_return(val.body, env, conds + [(val.test, True)], events, node)
-            _finish_return(val.orelse, env, conds + [(val.test, False)], events, node)
+            _finish_return(val.body, env, conds + [(val.test, True)], events, node, seq + (("cond", val.test, True),))
+            _finish_return(val.orelse, env, conds + [(val.test, False)], events, node, seq + (("cond", val.test, False),))
             return
         if expand and scope is not None and depth < 3 and isinstance(val, ast.Call) and isinstance(val.func, ast.Name):
             f = scope.get(val.func.id)
@@ -284,10 +286,11 @@ def outcomes(stmts, scope: Scope | None = None, env: dict | None = None, atom=No
                 if binding is not None:
                     for o in outcomes(_strip(f.body), scope, binding, atom, expand, limit, depth + 1):
                         if o.kind == "fall":
-                            o = Outcome(o.conds, "return", ast.Constant(value=None), o.events, o.env, o.node)
-                        done.append(Outcome(conds + o.conds, o.kind, o.value, events + o.events, o.env, o.node or node))
+                            o = Outcome(o.conds, "return", ast.Constant(value=None), o.events, o.env, o.node, o.seq)
+                        done.append(Outcome(conds + o.conds, o.kind, o.value, events + o.events, o.env, o.node or node,
+                                            list(seq) + list(o.seq)))
                     return
-        done.append(Outcome(conds, "return", val, events, env, node))
+        done.append(Outcome(conds, "return", val, events, env, node, list(seq)))
 
-    walk(list(stmts), dict(env or {}), [], [], lambda e, c, ev: done.append(Outcome(c, "fall", None, ev, e, None)))
+    walk(list(stmts), dict(env or {}), [], [], lambda e, c, ev, sq: done.append(Outcome(c, "fall", None, ev, e, None, list(sq))))
     return done
